@@ -160,6 +160,19 @@ static inline float avm_sqrtf_er(float x, int r) { return __CPROVER_uninterprete
 static inline double avm_sqrt_er(double x, int r) { return __CPROVER_uninterpreted_sqrt(x, (r & 4) ? __CPROVER_rounding_mode : (r & 3)); }
 #endif
 
+/* embedded rounding {er} of add / sub / mul / div / convert: _MM_FROUND_CUR_DIRECTION (bit 2) keeps MXCSR.RC, otherwise the static
+ * mode in bits 1:0 applies to this one instruction.  The model switches the rounding mode for the operation and restores it (every
+ * contract's frame lists __CPROVER_rounding_mode and its post-condition demands the value found on entry). */
+#ifdef AVM_NATIVE
+#define AVM_VOL volatile
+static inline int avm_er_enter(int r) { int o = fegetround(); if (!(r & 4)) fesetround(avm_fe_of(r & 3)); return o; }
+static inline void avm_er_leave(int o) { fesetround(o); }
+#else
+#define AVM_VOL
+static inline int avm_er_enter(int r) { int o = __CPROVER_rounding_mode; if (!(r & 4)) __CPROVER_rounding_mode = r & 3; return o; }
+static inline void avm_er_leave(int o) { __CPROVER_rounding_mode = o; }
+#endif
+
 /* ghost: number of elements of the object handed to gather / scatter (set by the harness, read by the contract) */
 size_t avm_len;
 /* ghost: address of the harness-owned memory object modulo 64.  CBMC objects have no addresses, so alignment-requiring
